@@ -12,6 +12,8 @@ import (
 	"fmt"
 	"io"
 	"regexp"
+	"sort"
+	"strconv"
 	"strings"
 	"time"
 
@@ -27,6 +29,7 @@ type Case struct {
 	GRL      string          `json:"grl"`
 	RulesJS  json.RawMessage `json:"rules"`   // program AST for the monitor
 	Counted  json.RawMessage `json:"counted"` // the one counted method atom of the program, or {"k":"none"}
+	Stream   []byte          `json:"stream,omitempty"` // variant reloaded-cut: the (truncated) stream itself, loaded as is
 	Other    *World          `json:"other"`   // facts an earlier instance of the same library is run on (variant second)
 	Removed  []string        `json:"removed"` // rules removed from the library before instantiation
 	Parts    []string        `json:"parts"`   // the same rules split over several resources (variant multi)
@@ -145,6 +148,17 @@ func classify(err error, ctx context.Context) (class string, rule string) {
 
 // BuildInstance builds the library per the case's variant and returns the instance to run on.
 func BuildInstance(c *Case) (*ast.KnowledgeBase, error) {
+	if c.Stream != nil {
+		lib := ast.NewKnowledgeLibrary()
+		if _, err := lib.LoadKnowledgeBaseFromReader(bytes.NewReader(c.Stream), true); err != nil {
+			return nil, errExpectedReject
+		}
+		kb, err := lib.NewKnowledgeBaseInstance("kb", "1")
+		if err != nil {
+			return nil, fmt.Errorf("instance of a truncated stream that loaded: %w", err)
+		}
+		return kb, nil
+	}
 	lib := ast.NewKnowledgeLibrary()
 	rb := builder.NewRuleBuilder(lib)
 	if c.Variant == "multi" && len(c.Parts) > 0 {
@@ -160,20 +174,39 @@ func BuildInstance(c *Case) (*ast.KnowledgeBase, error) {
 		lib.RemoveRuleEntry(n, "kb", "1")
 	}
 	rounds := 0
-	switch c.Variant {
-	case "reloaded":
+	cut := -1
+	switch {
+	case c.Variant == "reloaded":
 		rounds = 1
-	case "reloaded2":
+	case c.Variant == "reloaded2":
 		rounds = 2
+	case strings.HasPrefix(c.Variant, "reloaded-cut:"):
+		rounds = 1
+		cut, _ = strconv.Atoi(strings.TrimPrefix(c.Variant, "reloaded-cut:"))
 	}
 	for i := 0; i < rounds; i++ {
 		var buf bytes.Buffer
 		if err := lib.StoreKnowledgeBaseToWriter(&buf, "kb", "1"); err != nil {
 			return nil, fmt.Errorf("store: %w", err)
 		}
+		data := buf.Bytes()
+		if cut >= 0 && cut < len(data) {
+			data = data[:cut]
+		}
 		lib2 := ast.NewKnowledgeLibrary()
-		if _, err := lib2.LoadKnowledgeBaseFromReader(&buf, true); err != nil {
+		loaded, err := lib2.LoadKnowledgeBaseFromReader(bytes.NewReader(data), true)
+		if err != nil {
+			if cut >= 0 {
+				return nil, errExpectedReject
+			}
 			return nil, fmt.Errorf("load: %w", err)
+		}
+		if cut < 0 {
+			// C12: same name, version, rule names, descriptions and saliences
+			want, got := metaOf(lib.GetKnowledgeBase("kb", "1")), metaOf(loaded)
+			if fmt.Sprint(want) != fmt.Sprint(got) {
+				return nil, fmt.Errorf("load: metadata differs after store/load: stored %v loaded %v", want, got)
+			}
 		}
 		lib = lib2
 	}
@@ -204,14 +237,22 @@ func BuildInstance(c *Case) (*ast.KnowledgeBase, error) {
 // It returns an error only for harness-level problems (the case could not be set up).
 func RunCase(c *Case, em *Emitter, watchdog time.Duration) error {
 	kb, err := BuildInstance(c)
+	if err == errExpectedReject {
+		return err
+	}
 	if err != nil {
 		em.Emit(J{"ev": "setup-failed", "id": c.ID * 8, "what": err.Error(), "grl": c.GRL, "variant": c.Variant})
 		return err
 	}
+	RunCalls(c, kb, em, watchdog)
+	return nil
+}
+
+// RunCalls executes the calls of the case on an instance that already exists.
+func RunCalls(c *Case, kb *ast.KnowledgeBase, em *Emitter, watchdog time.Duration) {
 	for ci := range c.Calls {
 		runCall(c, ci, kb, em, watchdog)
 	}
-	return nil
 }
 
 func runCall(c *Case, ci int, kb *ast.KnowledgeBase, em *Emitter, watchdog time.Duration) {
@@ -320,4 +361,40 @@ func runCall(c *Case, ci int, kb *ast.KnowledgeBase, em *Emitter, watchdog time.
 	ret["complete"] = dc.IsComplete()
 	w.F.hook, w.F.gate = nil, nil
 	em.Emit(ret)
+}
+
+// ---- C12: stream faults -------------------------------------------------------------------------------
+
+// errExpectedReject marks a set-up that was (correctly) refused: a truncated stream that does not load.
+var errExpectedReject = errors.New("truncated stream rejected")
+
+type failingWriter struct {
+	buf    bytes.Buffer
+	calls  int
+	failAt int // the failAt-th Write call and every later one fail (1-based)
+}
+
+func (w *failingWriter) Write(p []byte) (int, error) {
+	w.calls++
+	if w.failAt > 0 && w.calls >= w.failAt {
+		return 0, errors.New("injected write failure")
+	}
+	return w.buf.Write(p)
+}
+
+type kbMeta struct {
+	Name, Version string
+	Rules         []string
+}
+
+func metaOf(kb *ast.KnowledgeBase) kbMeta {
+	m := kbMeta{Name: kb.Name, Version: kb.Version}
+	for _, r := range kb.RuleEntries {
+		if r.Deleted {
+			continue
+		}
+		m.Rules = append(m.Rules, fmt.Sprintf("%s|%s|%d", r.RuleName, r.RuleDescription, r.Salience))
+	}
+	sort.Strings(m.Rules)
+	return m
 }
